@@ -75,13 +75,13 @@ def modelRa (v : View) (k : Kind) (i nlo nhi m : Int) : String :=
   let b := View.begin v
   let e := View.endIt k v
   let it0 := b.advance k i
-  let head := [View.size v, It.sub e b, b2i (decide (b.x = e.x ∧ b.y = e.y ∧ b.p.pos = e.p.pos))]
+  let head := [View.size v, It.sub e b, It.equal b e]
   let t1 := it0.inc k
   let t2 := it0.dec k
   let g0 := pos3 it0 ++ pos3 t1 ++ pos3 (t1.dec k) ++ pos3 t2 ++ pos3 (t2.inc k)
   let rows := (range' nlo nhi).map fun n =>
     let J := it0.advance k n
-    pos3 J ++ [It.sub J it0, b2i (It.lt it0 J), b2i (It.lt J it0), b2i (decide (it0.x = J.x ∧ it0.y = J.y ∧ it0.p.pos = J.p.pos))]
+    pos3 J ++ [It.sub J it0, b2i (It.lt it0 J), b2i (It.lt J it0), It.equal it0 J]
       ++ pos3 (J.advance k m) ++ pos3 (it0.advance k (n + m))
   join (head :: g0 :: rows)
 
